@@ -159,8 +159,7 @@ Next ==
               nm  == IF ln.op = "call" THEN ln.name ELSE IF ln.op = "derive" THEN ln.how ELSE "new"
           IN /\ objs' = r.os
              /\ IF ~RetOK(ln.r, r.rets)
-                  THEN Reject(ln, IF ln.op = "derive" /\ ln.r.tag = "ints" /\ Len(ln.r.v) = 2
-                                     /\ (\E q \in 1..Len(r.rets) : r.rets[q].tag = "ints" /\ r.rets[q].v[1] = ln.r.v[1])
+                  THEN Reject(ln, IF ln.op = "derive" /\ ln.r.tag = "ints"      \* derived, but == / hash disagree
                                     THEN "EqHashConsistent"
                                   ELSE IF ln.op = "derive" THEN "CopyEqHashPickle"
                                   ELSE IF (\E q \in 1..Len(r.rets) : r.rets[q].tag = "exc" /\ r.rets[q].v = "TypeError") THEN "ImmutableRejects" ELSE "Return",
@@ -169,7 +168,9 @@ Next ==
                   THEN Reject(ln, IF ln.s[bad].n = "eq" THEN "EqHashConsistent"
                                   ELSE IF ln.s[bad].o # ln.o /\ ln.op = "call" /\ ~IsView(r.os, ln.s[bad].o) THEN "CopyIndependent"
                                   ELSE "ReadsAgree",
-                              ln.s[bad].n, KindOf(r.os, ln.s[bad].o), AnyEmpty(r.os))
+                              ln.s[bad].n,
+                              IF ln.s[bad].n = "eq" /\ KindOf(r.os, ln.s[bad].i) = "CombinedMultiDict" THEN "CombinedMultiDict"
+                              ELSE KindOf(r.os, ln.s[bad].o), AnyEmpty(r.os))
                 ELSE IF ln.x.has /\ ln.x.st # r.os[ln.o].st
                   THEN PrintT(ToJson([drift |-> 1, t |-> ln.t, i |-> ln.i, what |-> "exported post state differs from judge model"]))
                 ELSE TRUE
